@@ -324,4 +324,47 @@ Section Str.
             match correct_header_padding i2 h2 with Some (h3, i3) => Some (true, h3, i3) | None => None end
         end
     end.
+
+  (* ---- DBusMessage: header, body and the locked flag (dbus/dbus-message.c) ------------------------ *)
+  Record dmsg := mkM { m_header : hdr; m_body : dstr; m_locked : bool }.
+
+  (* _dbus_string_init = _dbus_string_init_preallocated (0): one dbus_malloc *)
+  Definition string_init (i : N) : bool * dstr * N :=
+    if F i then (false, mkD [] 0, (i + 1)%N) else (true, mkD [] PAD, (i + 1)%N).
+
+  Definition with_locked (m : dmsg) (l : bool) : dmsg := mkM (m_header m) (m_body m) l.
+
+  (* dbus_message_marshal: temporary string, lock the message (so that the body length is in the header;
+     the header bytes of the model always have it), copy header and body, _dbus_string_steal_data (which
+     allocates the empty block left behind), and put the locked flag back - [restore_on_failure] = also
+     on the three failure exits, as the code does; without it is seeded defect C14_5 *)
+  Definition msg_marshal (restore_on_failure : bool) (i : N) (m : dmsg) : bool * dmsg * N * bytes :=
+    match string_init i with
+    | (false, _, i1) => (false, m, i1, [])
+    | (true, tmp, i1) =>
+        let was_locked := m_locked m in
+        let m1 := with_locked m true in                                   (* dbus_message_lock *)
+        let failed_exit := if restore_on_failure then with_locked m1 was_locked else m1 in
+        let hb := d_bytes (h_data (m_header m)) in
+        match copy i1 hb 0 (length hb) tmp 0 with
+        | (false, _, i2) => (false, failed_exit, i2, [])
+        | (true, t1, i2) =>
+            let bb := d_bytes (m_body m) in
+            match copy i2 bb 0 (length bb) t1 (dlen t1) with
+            | (false, _, i3) => (false, failed_exit, i3, [])
+            | (true, t2, i3) =>
+                if F i3 then (false, failed_exit, (i3 + 1)%N, [])
+                else (true, with_locked m1 was_locked, (i3 + 1)%N, d_bytes t2)
+            end
+        end
+    end.
+
+  (* dbus_message_set_destination & co.: refused on a locked message (_dbus_return_val_if_fail (!message->locked)),
+     otherwise _dbus_header_set_field_basic *)
+  Definition msg_set_field (i : N) (m : dmsg) (e : hedit) : option (bool * dmsg * N) :=
+    if m_locked m then Some (false, m, i)
+    else match header_set_field true i (m_header m) e with
+         | Some (ok, h', i') => Some (ok, mkM h' (m_body m) (m_locked m), i')
+         | None => None
+         end.
 End Str.
